@@ -713,6 +713,21 @@ def run_case(ctx, case):
         res.count("violating_classes", len(bycls))
         res.count("violating_classes_not_minimised", len(bycls) - len(todo))
         reported = set()
+        if case.get("minimal"):
+            # stored witnesses (findings / regression corpus): each violating class with its closure is already
+            # a minimal witness, so the key is computed directly
+            for n in sorted(bycls):
+                mm = cg.closure(model, n)
+                groups = {}
+                for ds in bycls[n]:
+                    groups.setdefault((ds[0], ds[1], ds[3]), []).append(ds[2])
+                for (cat, what, got), vs in groups.items():
+                    key = key_of((cat, what, "", got), mm, n)
+                    if key not in reported:
+                        reported.add(key)
+                        res.violation(key, witness=cg.render(mm, prelude=False), target=n, views=sorted(set(vs)),
+                                      got=got, expected="g++: " + str(table[n][0]), model=mm)
+            todo = []
         for n in todo:
             pending = list(bycls[n])
             guard = 0
